@@ -183,6 +183,20 @@ Theorem c07_panic_reraise_one_write : forall cf s o, reachable cf s -> ctxd s = 
 Proof. exact panic_reraise_le1. Qed.
 Print Assumptions c07_panic_reraise_one_write.
 
+(* ... in particular with exactly ONE worker (WithWorkers(1), the clamp of WithWorkers(n <= 1), Finish / FinishVoid
+   with one function): the mapper's panic is recorded by its own goroutine's deferred recover and re-raised by the
+   caller with its value - it never escapes in a goroutine of the library (in the model a mapper's APanic leads to
+   WRecover, not to a dead process; the driver observes a process death per case as outcome `crash`). *)
+Corollary c07_panic_reraise_one_worker : forall cf s o, workers cf = 1 -> reachable cf s -> ctxd s = false ->
+  conce s = ONone -> wrote s = true -> c s = CDone o -> List.length (writes (rafter cf)) <= 1 ->
+  running s <= 1 /\ exists p, o = OPanic p /\ fpanic s = Some p.
+Proof.
+  intros cf s o W R H1 H2 H3 H4 H5. split.
+  - rewrite <- W. exact (worker_bound cf s R).
+  - exact (panic_reraise_le1 cf s o R H1 H2 H3 H4 H5).
+Qed.
+Print Assumptions c07_panic_reraise_one_worker.
+
 (* the exception is real: reducer writes twice, then panics with 9: the caller panics "written twice" *)
 Example c07_twice_wins_over_panic : exists cf ls s,
   run cf (init cf) ls = Some s /\ final s = true /\
